@@ -1062,3 +1062,26 @@ def field_initial(db, fn, e):
     if len(stores) != 1 or not init or stores[0] not in list(ast.walk(init[0])):
         return None
     return stores[0].value
+
+
+def linear_form(e):
+    """{term text: coefficient, '': constant} of an expression built from +, -, unary minus, integer constants and opaque terms;
+    None when it is not of that form"""
+    out = {}
+
+    def add(x, k):
+        if isinstance(x, ast.BinOp) and isinstance(x.op, (ast.Add, ast.Sub)):
+            return add(x.left, k) and add(x.right, k if isinstance(x.op, ast.Add) else -k)
+        if isinstance(x, ast.UnaryOp) and isinstance(x.op, ast.USub):
+            return add(x.operand, -k)
+        if isinstance(x, ast.Constant):
+            if isinstance(x.value, bool) or not isinstance(x.value, int):
+                return False
+            out[""] = out.get("", 0) + k * x.value
+            return True
+        t = " ".join(src(x).split())
+        out[t] = out.get(t, 0) + k
+        return True
+    if not add(e, 1):
+        return None
+    return {k: v for k, v in out.items() if v != 0 or k == ""} | ({"": out.get("", 0)})
